@@ -33,7 +33,8 @@ CHECKS.update({
                 note=OTHER_NOTE),
     "C04": dict(cat="other", ref="DESIGN §8 C04, App. A.3",
                 text="canonicalise's sweep/centre/direction discipline proved for all chain lengths and stop sites from the current source (pyvc: loop invariant, "
-                     "inlined iter_idx_list/_switch_direction, _push_cano by contract); dense preservation, isometries, bond bounds, lossless compress and "
+                     "inlined iter_idx_list/_switch_direction, _push_cano by contract); which entry of a per-bond limit list applies to the bond cut at a site (mechanical "
+                     "slice of the sweep loop of compress, all inputs); counter-models are replayed on the real methods; dense preservation, isometries, bond bounds, lossless compress and "
                      "variational compression are runtime contracts on bounded inputs.",
                 technique="contract-based deductive verification (pyvc, z3) of the index discipline; runtime contracts as bounded stand-in for the numeric clauses",
                 note=OTHER_NOTE + " Assumed contract: _push_cano moves the centre by one site and keeps the dense object."),
@@ -48,17 +49,21 @@ CHECKS.update({
                      "(all live objects), for every sector of every model incl. extreme ones, constructors, DMRG and evolution steps.",
                 technique="contract-based deductive verification (pyvc, z3) of the centre move; representation-invariant runtime contracts over bounded histories",
                 note=OTHER_NOTE),
-    "C01": dict(cat="exploration", ref="DESIGN §8 C01",
-                text="Runtime contracts on the MPO construction pipeline over bounded-exhaustive/seeded term tables and model mixes: exact formal-sum equality of "
-                     "the symbolic MPO, dense equality with an independent Kronecker sum minus offset for all three algorithms, QN-valid labels and charge, "
-                     "adjacent-site swaps equal permutation similarity. Nothing proved: the construction is NumPy/scipy.sparse index algebra outside the VC generator.",
-                technique="contracts (formal-sum invariant, dense postcondition) evaluated at run time on the real construction functions (bounded stand-in of the contract family)",
+    "C01": dict(cat="other", ref="DESIGN §8 C01, S.2",
+                text="Engine S: the real construct_symbolic_mpo (both graph algorithms) is executed with indeterminate coefficients; the symbolic operator multiplied "
+                     "out equals sum_r x_r word_r exactly, i.e. for all coefficient values per enumerated term structure. Runtime contracts on the whole pipeline over "
+                     "seeded term tables and model mixes: formal-sum equality, dense equality with an independent Kronecker sum minus offset for all three algorithms "
+                     "(QR is value-pivoting and stays bounded-only), QN-valid labels and charge, adjacent-site swaps equal permutation similarity.",
+                technique="exact symbolic execution of the real constructor on indeterminate coefficients (normal-form decision) + contracts (formal-sum invariant, dense "
+                          "postcondition) evaluated at run time on the real construction functions (bounded stand-in)",
                 note=OTHER_NOTE),
     "C02": dict(cat="other", ref="DESIGN §8 C02, App. A.8",
                 text="approximate_partition proved for all inputs (pyvc: consecutive covering slices incl. the floor-division fact) so the partition-based tree "
                      "constructors keep every basis set once; TTNO construction checked by runtime contracts (independent tree contraction == dense sum == chain MPO, "
-                     "QN-valid, topology independence) over enumerated tree shapes, groupings, dummy placements and the named constructors.",
-                technique="contract-based deductive verification (pyvc, z3) of approximate_partition; runtime contracts as bounded stand-in for the construction",
+                     "QN-valid, topology independence) over enumerated tree shapes, groupings, dummy placements and the named constructors; Engine S: "
+                     "construct_symbolic_ttno executed with indeterminate coefficients on every rooted ordered tree shape of the universe (exact, all coefficient values).",
+                technique="contract-based deductive verification (pyvc, z3) of approximate_partition; exact symbolic execution of construct_symbolic_ttno on indeterminate "
+                          "coefficients; runtime contracts as bounded stand-in for the numeric construction",
                 note=OTHER_NOTE + " print_tree shim is part of the trusted base; complex operators are outside TTNO's documented domain."),
     "C07": dict(cat="other", ref="DESIGN §8 C07",
                 text="Exact symbolic execution of the real expectation / expectations code decides, per enumerated shape and operator list, that the cached fast path, "
@@ -122,10 +127,14 @@ CHECKS.update({
                      "norm/energy conservation of one-site PS at bond limits 1-2, linear tree vs chain implementation, purified P x Q trees vs the dense Gibbs state. Bounded.",
                 technique="runtime contracts with theorem-derived bounds on the real tree evolution code (bounded stand-in)",
                 note=OTHER_NOTE + " print_tree shim is part of the trusted base."),
-    "C13": dict(cat="exploration", ref="DESIGN §8 C13",
-                text="Frame contracts (represented vector, total charge and label validity of every live object unchanged; in-place mutation of a derived result "
-                     "does not leak) evaluated after every step of random operation histories incl. every evolution scheme; bounded, nothing proved.",
-                technique="frame contracts evaluated at run time on the real methods over bounded random histories (bounded stand-in of the contract family)",
+    "C13": dict(cat="other", ref="DESIGN §8 C13, App. A.7, S.2",
+                text="Static modifies clauses for ~70 public state-producing / measuring methods of chains, trees, operators and density operators: an alias/effect "
+                     "analysis of the current source lists every write through a parameter alias and every in-place call on one; each must be covered by the method's "
+                     "clause (gauge move by callee contract, configuration field, or a stated joint rewrite such as prefactor folding). Frame contracts (represented "
+                     "vector, total charge, label validity of every live object; in-place mutation of a result or of an input does not leak) evaluated after every step "
+                     "of random operation histories on chains and trees incl. every evolution scheme, sums of lists of states, operator / density-operator methods.",
+                technique="frame (modifies-clause) obligations discharged by a static effect analysis of the real source; frame contracts evaluated at run time over bounded "
+                          "random histories (bounded stand-in)",
                 note=OTHER_NOTE),
 })
 
@@ -161,7 +170,8 @@ def main():
         "engines": [
             {"name": "pyvc", "path": "vk/pyvc", "serves_properties": ["C02", "C03", "C04", "C05", "C06", "C14", "C20"], "kind_free_text": "AST -> verification conditions (loop invariants, call by contract) -> z3/cvc5"},
             {"name": "exact-exec", "path": "vk/symx/exactexec.py", "serves_properties": ["C19"], "kind_free_text": "real source executed on exact rationals / z3 reals"},
-            {"name": "symx", "path": "vk/symx", "serves_properties": ["C03", "C07", "C11"], "kind_free_text": "real NumPy-level code executed on exact symbolic polynomial scalars; identities decided by normal form"},
+            {"name": "effects", "path": "vk/pyvc/effects.py", "serves_properties": ["C13"], "kind_free_text": "alias / effect analysis of the real source against sidecar modifies clauses"},
+            {"name": "symx", "path": "vk/symx", "serves_properties": ["C01", "C02", "C03", "C07", "C11"], "kind_free_text": "real NumPy-level code executed on exact symbolic polynomial scalars; identities decided by normal form"},
             {"name": "rtc", "path": "vk/rtc", "serves_properties": ["C01", "C02", "C03", "C04", "C05", "C06", "C07", "C08", "C09", "C10", "C11", "C12", "C13", "C14", "C15", "C16", "C17", "C18", "C20"], "kind_free_text": "runtime contracts on the real functions, bounded-exhaustive inputs (bounded stand-in, never counted as proved)"},
         ],
         "checks": checks,
